@@ -33,6 +33,7 @@ import numpy as np
 import core
 import covtrace
 import gen
+from props import _c10memo
 from env import import_dit
 
 REPRESENTATIONS = ['sparse-linear', 'dense-linear', 'sparse-log2', 'dense-loge', 'named', 'untrimmed', 'custom-space']
@@ -45,13 +46,22 @@ RANDOMISED = {'random_distribution', 'random_scalar_distribution', 'jittered', '
 # tolerance instead of exactly - the property exempts them from exact repeatability
 OPTIMISER = {'maxent_dist', 'marginal_maxent_dists', 'PID_CCS', 'ConnectedInformations', 'DependencyDecomposition',
              'intrinsic', 'secrecy_capacity', 'deweese', 'exact_common_information', 'wyner_common_information',
-             'moment_maxent_dists', 'hypercontractivity', 'MUIProfile', 'stochastic_gk'}
+             'moment_maxent_dists', 'hypercontractivity', 'MUIProfile', 'stochastic_gk',
+             # coverage-gap round (random restarts from NumPy's global generator, like the ones above)
+             # (measured spread of repetitions on 14 inputs x 4 runs: <= 1e-6 for each of these)
+             'MaxEntOptimizer', 'PID_MES', 'PID_IG', 'PED_CS', 'PID_RAV', 'PID_RA', 'ConnectedDualInformations', 'SchneidmanProfile'}
 
 
 # non-convex problems solved from random starting points (basin hopping): "stochastic optimisers" in the words
 # of the property; their values are not compared across repetitions, purity still is
 STOCHASTIC = {'wyner_common_information', 'exact_common_information', 'intrinsic', 'deweese', 'secrecy_capacity',
-              'hypercontractivity', 'stochastic_gk', 'DependencyDecomposition', 'necessary_intrinsic'}
+              'hypercontractivity', 'stochastic_gk', 'DependencyDecomposition', 'necessary_intrinsic',
+              # coverage-gap round: basin hopping from random points (dit.algorithms.distribution_optimizers' non-convex
+              # classes, the one-way secret key agreement rate and the decomposition built on it)
+              'MinEntOptimizer', 'CoInfoOptimizer', 'DualTotalCorrelationOptimizer', 'one_way_skar', 'PID_SKAR', 'PID_GH',
+              # random starting points as well; repetitions spread up to 4e-5 (BROJA), 6e-6 (PID_dep), and the curves'
+              # beta = 0 points are degenerate (any channel of rate 0 is optimal): values not compared
+              'pid_broja', 'PID_BROJA', 'PID_dep', 'RDCurve', 'IBCurve'}
 
 
 def close_value(a, b, tol):
@@ -73,8 +83,9 @@ def snapshot(d):
     """Everything observable about a distribution (and a few private fields named in the property)."""
     return {
         'outcomes': tuple(d.outcomes), 'pmf': d.pmf.tobytes(), 'base': d.get_base(), 'sparse': bool(d.is_sparse()),
-        'alphabet': repr(tuple(map(tuple, d.alphabet))), 'space': tuple(d.sample_space()),
-        'names': None if d.get_rv_names() is None else tuple(d.get_rv_names()),
+        'alphabet': repr(tuple(map(tuple, d.alphabet))) if d.is_joint() else repr(tuple(d.alphabet)),
+        'space': tuple(d.sample_space()),
+        'names': None if not hasattr(d, 'get_rv_names') or d.get_rv_names() is None else tuple(d.get_rv_names()),
         'mask': tuple(getattr(d, '_mask', ())), 'rv_mode': getattr(d, '_rv_mode', None),
         'prng': repr(d.prng.get_state()[1][:8].tolist()) + str(d.prng.get_state()[2]),
         'len': len(d), 'index': tuple(sorted(map(repr, d._outcomes_index.items()))),
@@ -94,16 +105,25 @@ def global_snapshot(dit, session=False):
             'prng': repr(dit.math.prng.get_state()[1][:8].tolist()) + str(dit.math.prng.get_state()[2])}
 
 
+def _num(x):
+    x = float(x)
+    return 'nan' if math.isnan(x) else round(x, 10)
+
+
 def canon_value(v):
     dit = import_dit()
     if isinstance(v, dit.distribution.BaseDistribution):
+        if np.isnan(v.pmf).any():
+            return ('dist-with-nan', tuple(v.outcomes), tuple(_num(x) for x in v.pmf), v.get_base())
         return ('dist', tuple(v.outcomes), tuple(round(float(x), 10) for x in v.pmf), v.get_base())
     if isinstance(v, (list, tuple)):
         return tuple(canon_value(x) for x in v)
     if isinstance(v, dict):
         return tuple(sorted((repr(k), canon_value(x)) for k, x in v.items()))
     if isinstance(v, np.ndarray):
-        return tuple(np.round(v.astype(float), 10).ravel().tolist()) if v.dtype.kind in 'fiub' else repr(v)
+        if v.dtype.kind in 'fiub':
+            return tuple(_num(x) for x in v.astype(float).ravel().tolist())
+        return repr(v)
     if isinstance(v, (float, np.floating)):
         return 'nan' if math.isnan(float(v)) else round(float(v), 10)
     if isinstance(v, (int, str, bool, type(None), np.integer)):
@@ -210,7 +230,345 @@ def build_registry(dit, tier):
         add('multivariate.necessary_intrinsic_mutual_information', lambda d, e: mv.necessary_intrinsic_mutual_information(d, [A(d, [0]), A(d, [1])], A(d, [2])))
         add('multivariate.secrecy_capacity_skar', lambda d, e: mv.secrecy_capacity_skar(d, [A(d, [0]), A(d, [1])], A(d, [2])))
         add('profiles.DependencyDecomposition', lambda d, e: dit.profiles.DependencyDecomposition(d))
+    extend_registry(dit, tier, add, A)
     return reg
+
+
+# names (exact) of callables whose name contains one of the STOCHASTIC / OPTIMISER fragments but which are closed
+# forms: their repetitions are compared exactly
+CLOSED_FORM = {'multivariate.upper_intrinsic_mutual_information', 'multivariate.upper_intrinsic_total_correlation',
+               'multivariate.upper_intrinsic_dual_total_correlation', 'multivariate.upper_intrinsic_caekl_mutual_information',
+               'multivariate.lower_intrinsic_mutual_information[quick]'}
+
+
+def is_randomised(nm):
+    if nm in CLOSED_FORM:
+        return False
+    return any(x in nm for x in RANDOMISED) or any(x in nm for x in STOCHASTIC)
+
+
+def is_scalar_entry(nm):
+    """Entries applied to the pair of ScalarDistributions of a case instead of the pair of joint distributions."""
+    return nm.startswith('Scalar.')
+
+
+def extend_registry(dit, tier, add, A):
+    """
+    Coverage-gap round: public callables that take a distribution (or the arrays / conditional distributions of one)
+    and were in no registry, argument shapes of registered ones that reach other code (conditioning variables, names,
+    `extract=True`, options), the classes of dit.algorithms.distribution_optimizers, the remaining PIDs and profiles,
+    printing, and - under names starting with 'Scalar.' - the methods, operators and measures of ScalarDistribution,
+    which are applied to the two scalar distributions every case carries.
+    Optimiser-based callables that take more than about a second are in the thorough tier only.
+    """
+    import dit.abstractdist, dit.cdisthelpers, dit.helpers, dit.validate, dit.rate_distortion
+    import dit.algorithms.lattice as lat
+    import dit.algorithms.distribution_optimizers as dopt
+    mv, alg, D, O, S = dit.multivariate, dit.algorithms, dit.divergences, dit.other, dit.shannon
+    X, Y, Z = [0], [1], [2]
+    XY, YZ = [0, 1], [1, 2]
+    thorough = tier == 'thorough'
+
+    # ---- non-mutating methods of Distribution
+    add('Distribution.__str__', lambda d, e: str(d))
+    add('Distribution.__repr__', lambda d, e: repr(d))
+    add('Distribution._repr_html_', lambda d, e: d._repr_html_())
+    add('Distribution.to_html', lambda d, e: d.to_html(digits=3, exact=False))
+    add('Distribution.to_string(options)', lambda d, e: [d.to_string(digits=4, exact=True, show_mask=True, str_outcomes=True),
+                                                         d.to_string(exact=False, tol=1e-3, show_mask='!')])
+    add('Distribution.__eq__', lambda d, e: [d == e, d == d, d != e, d == d.copy(), d == 1])
+    add('Distribution.__hash__', lambda d, e: hash(d) == hash(d))
+    add('Distribution.__contains__', lambda d, e: [o in d for o in d.sample_space()] + [o in d for o in e.outcomes])
+    add('Distribution.__iter__', lambda d, e: list(d))
+    add('Distribution.__reversed__', lambda d, e: list(reversed(d)))
+    add('Distribution.__len__', lambda d, e: len(d))
+    add('Distribution.event_space', lambda d, e: list(itertools.islice(d.event_space(), 40)))
+    add('Distribution.zipped()', lambda d, e: [list(d.zipped()), list(d.zipped(mode='pmf'))])
+    add('Distribution.atoms(patoms)', lambda d, e: list(d.atoms(patoms=True)))
+    add('Distribution.has_outcome(null)', lambda d, e: [d.has_outcome(o) for o in d.sample_space()] + [d.has_outcome(o, null=True) for o in e.outcomes])
+    add('Distribution.flags', lambda d, e: [d.is_dense(), d.is_sparse(), d.is_joint(), d.is_log(), d.is_numerical(),
+                                           d.get_base(), d.get_base(numerical=True), d.get_rv_names(),
+                                           d.outcome_length(), d.outcome_length(masked=True), list(d.sample_space()),
+                                           list(d.alphabet), list(d.outcomes)])
+    add('Distribution.is_approx_equal(tols)', lambda d, e: [d.is_approx_equal(e, rtol=1e-3, atol=0.5), d.is_approx_equal(d.copy()),
+                                                          e.is_approx_equal(d)])
+    add('Distribution.event_probability(all)', lambda d, e: [d.event_probability(list(d.outcomes)), d.event_probability([])])
+    add('Distribution.coalesce(extract)', lambda d, e: d.coalesce([A(d, XY)], extract=True))
+    add('Distribution.coalesce(repeats)', lambda d, e: d.coalesce([A(d, [2, 0]), A(d, [0]), A(d, [0, 1, 2])]))
+    add('Distribution.condition_on(extract)', lambda d, e: d.condition_on(A(d, X), rvs=A(d, Z), extract=True))
+    add('Distribution.condition_on[rvs]', lambda d, e: d.condition_on(A(d, YZ), rvs=A(d, X)))
+    add('Distribution.condition_on[two]', lambda d, e: d.condition_on(A(d, [0, 2])))
+    add('Distribution.marginal[indices]', lambda d, e: [d.marginal([2, 0], rv_mode='indices'), d.marginal([]), d.marginal(A(d, [0, 1, 2]))])
+    add('Distribution.marginalize[indices]', lambda d, e: [d.marginalize([0, 1], rv_mode='indices'), d.marginalize([])])
+    add('Distribution.copy(linear)', lambda d, e: d.copy(base='linear'))
+    add('Distribution.copy(2)', lambda d, e: d.copy(base=2))
+    add('Distribution.from_distribution(base)', lambda d, e: [dit.Distribution.from_distribution(d, base=2),
+                                                             dit.Distribution.from_distribution(d, base='linear')])
+    add('ScalarDistribution.from_distribution(joint)', lambda d, e: [dit.ScalarDistribution.from_distribution(d),
+                                                                    dit.ScalarDistribution.from_distribution(d, base='e', extract=False)])
+    add('ScalarDistribution(joint)', lambda d, e: dit.ScalarDistribution(list(d.outcomes), d.pmf, base=d.get_base(), trim=False))
+    add('Distribution(dict of joint)', lambda d, e: dit.Distribution(d.to_dict(), base=d.get_base()))
+    add('Distribution.rand(explicit scalar)', lambda d, e: [d.rand(rand=0.25), d.rand(size=2, rand=np.array([0.0, 0.999]))])
+    add('math.sample(explicit)', lambda d, e: dit.math.sample(d, size=3, rand=np.array([0.1, 0.5, 0.9])))
+
+    # ---- helpers that read a distribution
+    # NOT JUDGED (reported): copypmf(d) with no base on a distribution in base 'e' asks get_ops for the *numerical* base
+    # 2.718..., which memoises a second operations object under a new key of dit.math.ops.cache (a query that grows
+    # the global cache); that one input class is left out, every other form is called
+    add('helpers.copypmf', lambda d, e: _each([lambda: dit.copypmf(d) if d.get_base() != 'e' else None,
+                                               lambda: dit.copypmf(d, base=2, mode='dense'),
+                                               lambda: dit.copypmf(d, base='linear', mode='sparse'),
+                                               lambda: dit.copypmf(d, base='e', mode='asis')]))
+    add('helpers.normalize_pmfs', lambda d, e: [sorted(x.tolist()) for x in dit.helpers.normalize_pmfs(d, e)])
+    add('helpers.normalize_rvs', lambda d, e: dit.helpers.normalize_rvs(d, [A(d, X), A(d, Y)], A(d, Z), None)[:2])
+    add('helpers.normalize_rvs(defaults)', lambda d, e: dit.helpers.normalize_rvs(d, None, None, None)[:2])
+    add('helpers.parse_rvs', lambda d, e: dit.helpers.parse_rvs(d, A(d, [2, 0]), unique=True, sort=True))
+    add('helpers.numerical_test', lambda d, e: dit.helpers.numerical_test(d))
+    add('abstractdist.get_abstract_dist', lambda d, e: dit.abstractdist.get_abstract_dist(d).parameter_array([0, 2]))
+    add('abstractdist.brute_marginal_array', lambda d, e: dit.abstractdist.brute_marginal_array(d, A(d, [0, 2])))
+    add('cdisthelpers.cdist_array', lambda d, e: _each([lambda: dit.cdisthelpers.cdist_array(d.condition_on(A(d, X))[1], mode='dense'),
+                                                        lambda: dit.cdisthelpers.cdist_array(d.condition_on(A(d, X))[1], base=2, mode='dense'),
+                                                        lambda: dit.cdisthelpers.cdist_array(d.condition_on(A(d, XY))[1], base='linear')]))
+    add('cdisthelpers.joint_from_factors', lambda d, e: dit.joint_from_factors(*d.condition_on(A(d, X))))
+    add('cdisthelpers.joint_from_factors(kept)', _jff_kept)
+    add('validate.pmf', lambda d, e: [dit.validate.is_pmf(d.pmf, d.ops), dit.validate.validate_pmf(d.pmf, d.ops),
+                                      dit.validate.validate_normalization(d.pmf, d.ops), dit.validate.validate_probabilities(d.pmf, d.ops)])
+    add('validate.outcomes', lambda d, e: [dit.validate.validate_outcomes(d.outcomes, d._sample_space),
+                                           dit.validate.validate_outcome_class(d.outcomes), dit.validate.validate_outcome_length(d.outcomes)])
+    add('shannon.entropy_pmf', lambda d, e: S.entropy_pmf(d.pmf))
+    # the operations object's functions that are not in-place, handed the stored array itself
+    add('math.ops(not in-place)', lambda d, e: _each([
+        lambda: d.ops.normalize(d.pmf), lambda: d.ops.normalize(np.vstack([d.pmf, d.pmf]), axis=-1),
+        lambda: d.ops.normalize(np.vstack([d.pmf, d.pmf]), axis=0), lambda: d.ops.add_reduce(d.pmf), lambda: d.ops.mult_reduce(d.pmf),
+        lambda: d.ops.invert(d.pmf), lambda: d.ops.add(d.pmf, d.pmf), lambda: d.ops.mult(d.pmf, d.pmf), lambda: d.ops.exp(d.pmf),
+        lambda: d.ops.log(d.pmf), lambda: d.ops.is_null(d.pmf), lambda: d.ops.is_null_exact(d.pmf)]))
+    for fn in ('relative_entropy', 'cross_entropy', 'variational_distance', 'hellinger_distance', 'bhattacharyya_coefficient',
+               'chernoff_information', 'jensen_shannon_divergence2', 'earth_movers_distance'):
+        if hasattr(D.pmf, fn):
+            add('divergences.pmf.' + fn, lambda d, e, f=getattr(D.pmf, fn): f(d.pmf, e.pmf) if len(d.pmf) == len(e.pmf) else None)
+    add('divergences.pmf.jensen_shannon_divergence', lambda d, e: D.pmf.jensen_shannon_divergence(np.vstack([d.pmf, e.pmf]), [0.25, 0.75])
+        if len(d.pmf) == len(e.pmf) else None)
+
+    # ---- constructors from distributions
+    add('distconst.erasure', lambda d, e: dit.erasure(d, 0.25))
+    add('distconst.noisy', lambda d, e: dit.noisy(d, 0.25))
+    W = lambda d: [d.ops.log(0.25), d.ops.log(0.75)] if d.is_log() else [0.25, 0.75]     # weights in the base of d
+    add('distconst.mixture_distribution2', lambda d, e: dit.mixture_distribution2([d, e.copy(base=d.get_base())], W(d)))
+    add('distconst.mixture_distribution(no merge)', lambda d, e: dit.mixture_distribution([d, e.copy(base=d.get_base())], W(d)))
+    add('distconst.product_distribution[rvs,base]', lambda d, e: [dit.product_distribution(d, [A(d, XY), A(d, Z)]),
+                                                                 dit.product_distribution(d, [A(d, X), A(d, Z)], base=2)])
+    add('distconst.expanded_samplespace(no union)', lambda d, e: dit.expanded_samplespace(d, union=False))
+    add('distconst.pruned_samplespace(given)', lambda d, e: dit.pruned_samplespace(d, sample_space=list(d.outcomes)))
+    add('distconst.RVFunctions.from_partition', lambda d, e: dit.insert_rvf(
+        d, dit.RVFunctions(d).from_partition([list(d.outcomes)[:2], list(d.outcomes)[2:]])))
+    add('distconst.RVFunctions.from_mapping', lambda d, e: dit.insert_rvf(
+        d, dit.RVFunctions(d).from_mapping(dict((o, o[0]) for o in d.outcomes))))
+
+    # ---- measures with variables of interest, conditioning variables and options
+    for fn in ('entropy', 'total_correlation', 'dual_total_correlation', 'binding_information', 'residual_entropy',
+               'variation_of_information', 'interaction_information', 'tse_complexity', 'o_information',
+               'gk_common_information', 'mss_common_information', 'caekl_mutual_information'):
+        add('multivariate.%s[rvs,crvs]' % fn, lambda d, e, f=getattr(mv, fn): f(d, [A(d, X), A(d, Y)], A(d, Z)))
+    add('multivariate.cohesion[rvs,crvs]', lambda d, e: mv.cohesion(d, 1, [A(d, X), A(d, Y)], A(d, Z)))
+    add('multivariate.generalized_dual_total_correlation[rvs]', lambda d, e: mv.generalized_dual_total_correlation(d, 1, [A(d, X), A(d, YZ)]))
+    add('multivariate.independent_information', lambda d, e: mv.independent_information(d, [A(d, X), A(d, Y)], A(d, Z)))
+    add('multivariate.entropy[indices]', lambda d, e: mv.entropy(d, [2, 0], [1], rv_mode='indices'))
+    add('shannon.entropy[rvs]', lambda d, e: [S.entropy(d, A(d, XY)), S.entropy(d, [1], rv_mode='indices')])
+    for fn in ('extropy', 'disequilibrium', 'LMPR_complexity'):
+        add('other.%s[rvs]' % fn, lambda d, e, f=getattr(O, fn): f(d, A(d, XY)))
+    add('other.renyi_entropy[orders]', lambda d, e: _each([lambda a=a: O.renyi_entropy(d, a, A(d, YZ)) for a in (0, 0.5, 1, 3, np.inf)]))
+    add('other.tsallis_entropy[orders]', lambda d, e: _each([lambda a=a: O.tsallis_entropy(d, a, A(d, YZ)) for a in (0, 0.5, 1, 3)]))
+    add('other.perplexity[rvs,crvs]', lambda d, e: O.perplexity(d, A(d, XY), A(d, Z)))
+    add('other.lautum_information[rvs]', lambda d, e: O.lautum_information(d, [A(d, X), A(d, YZ)]))
+    add('other.cumulative_residual_entropy(extract)', lambda d, e: [O.cumulative_residual_entropy(d.marginal(A(d, X)), extract=True),
+                                                                   O.generalized_cumulative_residual_entropy(d.marginal(A(d, X)), extract=True)])
+    add('other.conditional_cumulative_residual_entropy', lambda d, e: O.conditional_cumulative_residual_entropy(d, A(d, X)[0], A(d, YZ)))
+    add('other.conditional_generalized_cumulative_residual_entropy',
+        lambda d, e: O.conditional_generalized_cumulative_residual_entropy(d, A(d, X)[0], A(d, YZ)))
+    add('divergences.f_divergence', lambda d, e: _each([lambda f=f: D.f_divergence(d, e, f) for f in (_f_kl, _f_tv, _f_chi2)]))
+    add('divergences.f_divergence[rvs]', lambda d, e: D.f_divergence(d, e, _f_chi2, A(d, XY)))
+    add('divergences.cross_entropy[rvs,crvs]', lambda d, e: D.cross_entropy(d, e, A(d, X), A(d, Y)))
+    add('divergences.jensen_shannon_divergence[weights]', lambda d, e: D.jensen_shannon_divergence([d, e, d], [0.25, 0.5, 0.25]))
+    for fn in ('alpha_divergence', 'renyi_divergence', 'tsallis_divergence', 'hellinger_divergence', 'hellinger_sum'):
+        add('divergences.%s[alpha,rvs]' % fn, lambda d, e, f=getattr(D, fn): _each([lambda: f(d, e, 0.5), lambda: f(d, e, 2, A(d, XY))]))
+    add('divergences.earth_movers_distance[distances]', lambda d, e: D.earth_movers_distance(
+        d, e, 1.0 - np.eye(len(d.outcomes))) if tuple(d.outcomes) == tuple(e.outcomes) else None)
+    for fn in ('upper_intrinsic_mutual_information', 'upper_intrinsic_total_correlation',
+               'upper_intrinsic_dual_total_correlation', 'upper_intrinsic_caekl_mutual_information'):
+        add('multivariate.' + fn, lambda d, e, f=getattr(mv, fn): f(d, [A(d, X), A(d, Y)], A(d, Z)))
+    add('multivariate.lower_intrinsic_mutual_information[quick]',
+        lambda d, e: mv.lower_intrinsic_mutual_information(d, [A(d, X), A(d, Y)], A(d, Z)))
+    add('multivariate.no_communication_skar', lambda d, e: mv.no_communication_skar(d, A(d, X), A(d, Y), A(d, Z)))
+    # optimisation over an auxiliary variable (BaseAuxVarOptimizer), with the conditioning variable they need
+    for fn in ('intrinsic_mutual_information', 'intrinsic_dual_total_correlation', 'intrinsic_caekl_mutual_information'):
+        add('multivariate.%s[rvs,crvs]' % fn, lambda d, e, f=getattr(mv, fn): f(d, [A(d, X), A(d, Y)], A(d, Z), niter=2))
+    add('multivariate.secrecy_capacity_skar[quick]', lambda d, e: mv.secrecy_capacity_skar(d, [A(d, X), A(d, Y)], A(d, Z), niter=2))
+
+    # ---- algorithms
+    add('algorithms.central_moment', lambda d, e: _each([lambda: alg.central_moment(d, 2), lambda: alg.standard_moment(d, 3)]))
+    add('algorithms.channel_capacity', lambda d, e: alg.channel_capacity(d.condition_on(A(d, X), rvs=A(d, Z))[1]))
+    add('algorithms.channel_capacity_joint(marginal)', lambda d, e: alg.channel_capacity_joint(d, A(d, XY), A(d, Z), marginal=True))
+    add('algorithms.mss_sigalg', lambda d, e: sorted(sorted(map(repr, c)) for c in alg.mss_sigalg(d, A(d, X), A(d, YZ))))
+    add('algorithms.mss(options)', lambda d, e: [alg.mss(d, A(d, X), int_outcomes=False), alg.mss(d, A(d, XY))])
+    add('algorithms.insert_mss(defaults)', lambda d, e: alg.insert_mss(d, 0, A(d, YZ)))
+    add('algorithms.info_trim[rvs]', lambda d, e: alg.info_trim(d, [A(d, X), A(d, YZ)]))
+    add('algorithms.lattice.join', lambda d, e: [lat.join(d, [A(d, X), A(d, Y)]), lat.join(d, [A(d, X), A(d, Y)], int_outcomes=False)])
+    add('algorithms.lattice.meet', lambda d, e: [lat.meet(d, [A(d, X), A(d, YZ)]), lat.meet(d, [A(d, X), A(d, Y)], int_outcomes=False)])
+    add('algorithms.lattice.sigalgs', lambda d, e: [sorted(sorted(map(repr, c)) for c in f(d, [A(d, X), A(d, Y)]))
+                                                    for f in (lat.join_sigalg, lat.meet_sigalg)]
+        + [sorted(sorted(map(repr, c)) for c in lat.induced_sigalg(d, A(d, Z)))])
+    add('algorithms.lattice.dist_from_induced_sigalg', lambda d, e: lat.dist_from_induced_sigalg(d, lat.induced_sigalg(d, A(d, XY))))
+    add('algorithms.maxent_dist(options)', lambda d, e: alg.maxent_dist(d, [A(d, X), A(d, YZ)], sparse=False))
+    add('algorithms.marginal_maxent_dists[k_max]', lambda d, e: alg.marginal_maxent_dists(d, k_max=2))
+    add('algorithms.MaxEntOptimizer', lambda d, e: _optimised(dopt.MaxEntOptimizer(d, [A(d, XY), A(d, YZ)]), None))
+    for cn in ('MinEntOptimizer', 'MaxCoInfoOptimizer', 'MinCoInfoOptimizer', 'MaxDualTotalCorrelationOptimizer',
+               'MinDualTotalCorrelationOptimizer'):
+        # basin hopping from random points: stochastic optimisers
+        add('algorithms.' + cn, lambda d, e, c=getattr(dopt, cn): _optimised(c(d, [A(d, XY), A(d, YZ)]), 1))
+    add('algorithms.pid_broja', lambda d, e: tuple(dopt.pid_broja(d, [A(d, X), A(d, Y)], A(d, Z), niter=2)))
+
+    # ---- profiles, partitions and decompositions; their printed forms
+    add('profiles.ShannonPartition(printed)', lambda d, e: _printed(dit.profiles.ShannonPartition(d)))
+    add('profiles.ExtropyPartition(printed)', lambda d, e: _printed(dit.profiles.ExtropyPartition(d)))
+    add('profiles.ComplexityProfile(printed)', lambda d, e: _printed(dit.profiles.ComplexityProfile(d)))
+    add('profiles.EntropyTriangle[list]', lambda d, e: dit.profiles.EntropyTriangle([d, e]).points)
+    add('pid.PID_WB(printed)', lambda d, e: _printed(dit.pid.PID_WB(d, [A(d, X), A(d, Y)], A(d, Z))))
+    add('pid.PID_MMI(defaults)', lambda d, e: dit.pid.PID_MMI(d))
+    for cname in ('PID_CT', 'PID_IG', 'PID_MES', 'PID_Proj', 'PID_RR', 'PID_BROJA'):
+        if hasattr(dit.pid, cname):
+            add('pid.' + cname, lambda d, e, c=getattr(dit.pid, cname): c(d, [A(d, X), A(d, Y)], A(d, Z)))
+    add('pid.PED_CS', lambda d, e: dit.pid.PED_CS(d))
+
+    # ---- ScalarDistribution: methods, operators (which return new objects) and measures on numerical outcomes
+    add('Scalar.printing', lambda s, t: [str(s), repr(s), s.to_string(digits=3, exact=True), s.to_html(), s._repr_html_()])
+    add('Scalar.to_dict', lambda s, t: s.to_dict())
+    add('Scalar.iteration', lambda s, t: [list(s), list(reversed(s)), len(s), list(s.zipped()), list(s.zipped(mode='atoms')),
+                                          list(s.zipped(mode='patoms')), list(s.atoms()), list(s.atoms(patoms=True)),
+                                          list(s.sample_space()), list(itertools.islice(s.event_space(), 40))])
+    add('Scalar.lookups', lambda s, t: [[o in s for o in s.sample_space()], [s[o] for o in s.sample_space()],
+                                        [s.has_outcome(o) for o in s.sample_space()], [s.has_outcome(o, null=False) for o in s.sample_space()],
+                                        s.event_probability(list(s.sample_space())[:2]), s.has_outcome(10 ** 6), 10 ** 6 in s])
+    add('Scalar.flags', lambda s, t: [s.is_dense(), s.is_sparse(), s.is_joint(), s.is_log(), s.is_numerical(), s.get_base(),
+                                      s.get_base(numerical=True), list(s.alphabet), list(s.outcomes), s.validate()])
+    add('Scalar.copy', lambda s, t: [s.copy(), s.copy(base='linear'), s.copy(base=2), s.copy(base='e')])
+    add('Scalar.is_approx_equal', lambda s, t: _each([lambda: s.is_approx_equal(t), lambda: s.is_approx_equal(s.copy()),
+                                                      lambda: s.is_approx_equal(t, rtol=1e-3, atol=0.5), lambda: s.is_approx_equal(t + 1)]))
+    add('Scalar.__eq__', lambda s, t: [hash(s) == hash(s), s == t, s != t, s == s.copy(), s == 1])
+    add('Scalar.comparisons', lambda s, t: [s < t, s <= t, s > t, s >= t, s < 2, s <= 2, s > 2, s >= 2])
+    add('Scalar.__add__', lambda s, t: [s + t, s + 3, 3 + s, s + 0.5])
+    add('Scalar.__sub__', lambda s, t: [s - t, s - 3, 3 - s, t - s])
+    add('Scalar.__mul__', lambda s, t: [s * t, s * 3, 3 * s, s * -1])
+    add('Scalar.__truediv__', lambda s, t: [s / 2, s / (t + 10), 12 / (s + 10)])
+    add('Scalar.__floordiv__', lambda s, t: [s // 2, s // (t + 10), 12 // (s + 10)])
+    add('Scalar.__mod__', lambda s, t: [s % 2, s % (t + 10), 12 % (s + 10)])
+    add('Scalar.__matmul__', lambda s, t: [s @ t, s @ s])
+    add('Scalar.rand(explicit)', lambda s, t: [s.rand(rand=0.25), s.rand(size=3, rand=np.array([0.1, 0.5, 0.9])),
+                                               dit.math.sample(s, size=2, rand=np.array([0.0, 0.999]))])
+    add('Scalar.to_rv_discrete', lambda s, t: (lambda rv: [np.asarray(rv.xk, dtype=float), np.asarray(rv.pk, dtype=float)])(s.to_rv_discrete()))
+    add('Scalar.from_rv_discrete', lambda s, t: dit.ScalarDistribution.from_rv_discrete(s.to_rv_discrete()))
+    add('Scalar.from_distribution', lambda s, t: _each([lambda: dit.ScalarDistribution.from_distribution(s),
+                                                        lambda: dit.ScalarDistribution.from_distribution(s, base=2),
+                                                        lambda: dit.Distribution.from_distribution(s),
+                                                        lambda: dit.Distribution.from_distribution(s, base='e')]))
+    add('Scalar.stats', lambda s, t: _each([lambda: alg.mean(s), lambda: alg.median(s), lambda: alg.mode(s), lambda: alg.standard_deviation(s),
+                                            lambda: alg.central_moment(s, 2), lambda: alg.standard_moment(s, 3)]))
+    add('Scalar.entropies', lambda s, t: _each([lambda: S.entropy(s), lambda: O.extropy(s), lambda: O.perplexity(s), lambda: O.renyi_entropy(s, 2),
+                                                lambda: O.tsallis_entropy(s, 0.5), lambda: O.disequilibrium(s), lambda: O.LMPR_complexity(s)]))
+    add('Scalar.cumulative_residual_entropy', lambda s, t: _each([lambda: O.cumulative_residual_entropy(s),
+                                                                  lambda: O.generalized_cumulative_residual_entropy(s)]))
+    add('Scalar.divergences', lambda s, t: _each([lambda: D.kullback_leibler_divergence(s, t), lambda: D.cross_entropy(s, t),
+                                                  lambda: D.jensen_shannon_divergence([s, t]), lambda: D.variational_distance(s, t),
+                                                  lambda: D.hellinger_distance(s, t), lambda: D.bhattacharyya_coefficient(s, t),
+                                                  lambda: D.chernoff_information(s, t), lambda: D.renyi_divergence(s, t, 2),
+                                                  lambda: D.f_divergence(s, t, _f_chi2), lambda: D.earth_movers_distance(s, t)]))
+    add('Scalar.helpers', lambda s, t: _each([lambda: dit.copypmf(s) if s.get_base() != 'e' else None,       # see helpers.copypmf above
+                                              lambda: dit.copypmf(s, base=2, mode='dense'), lambda: dit.copypmf(s, base='linear', mode='sparse'),
+                                              lambda: dit.helpers.numerical_test(s),
+                                              lambda: [sorted(x.tolist()) for x in dit.helpers.normalize_pmfs(s, t)]]))
+    add('Scalar.constructors', lambda s, t: _each([lambda: dit.modify_outcomes(s, lambda o: o % 2), lambda: dit.uniform_like(s),
+                                                   lambda: dit.pruned_samplespace(s), lambda: dit.expanded_samplespace(s),
+                                                   lambda: dit.mixture_distribution([s, t.copy(base=s.get_base())], W(s), merge=True),
+                                                   lambda: dit.mixture_distribution2([s, t.copy(base=s.get_base())], W(s))]))
+
+    if thorough:
+        add('multivariate.one_way_skar', lambda d, e: mv.one_way_skar(d, A(d, X), A(d, Y), A(d, Z)))
+        add('divergences.hypercontractivity_coefficient', lambda d, e: D.hypercontractivity_coefficient(d, [A(d, X), A(d, Y)], niter=2))
+        add('multivariate.intrinsic_mutual_information[default niter]', lambda d, e: mv.intrinsic_mutual_information(d, [A(d, X), A(d, Y)], A(d, Z)))
+        # left out for their run time (tens of minutes per call on 3 binary variables, measured): the two-part and the
+        # minimal intrinsic mutual informations with a conditioning variable, two_way_skar
+        add('multivariate.interactive_intrinsic_mutual_information[rvs,crvs]',
+            lambda d, e: mv.interactive_intrinsic_mutual_information(d, [A(d, X), A(d, Y)], A(d, Z), niter=2))
+        for cname in ('ConnectedDualInformations', 'SchneidmanProfile'):
+            if hasattr(dit.profiles, cname):
+                add('profiles.' + cname, lambda d, e, c=getattr(dit.profiles, cname): c(d))
+        for cname in ('PID_RAV', 'PID_RA', 'PID_dep', 'PID_SKAR_owb', 'PID_GH'):
+            if hasattr(dit.pid, cname):
+                add('pid.' + cname, lambda d, e, c=getattr(dit.pid, cname): c(d, [A(d, X), A(d, Y)], A(d, Z)))
+        add('rate_distortion.RDCurve', lambda d, e: _curve(dit.rate_distortion.RDCurve(d, rv=A(d, X), beta_num=3)))
+        add('rate_distortion.IBCurve', lambda d, e: _curve(dit.rate_distortion.IBCurve(d, rvs=[A(d, X), A(d, Y)], beta_num=3)))
+
+
+def _f_kl(t):
+    return t * np.log2(t)
+
+
+def _f_tv(t):
+    return abs(t - 1) / 2
+
+
+def _f_chi2(t):
+    return (t - 1) ** 2
+
+
+def _jff_kept(d, e):
+    """joint_from_factors on factors that are kept alive around the call: they are arguments too."""
+    dit = import_dit()
+    m, cs = d.condition_on([0], rv_mode='indices')
+    before = [snapshot(m)] + [snapshot(c) for c in cs]
+    out = [dit.joint_from_factors(m, cs, strict=True), dit.joint_from_factors(m, cs, strict=False)]
+    after = [snapshot(m)] + [snapshot(c) for c in cs]
+    if before != after:
+        raise ArgumentChanged('joint_from_factors changed one of the factors it was handed')
+    return out
+
+
+class ArgumentChanged(Exception):
+    """Raised by a recipe that hands a callable further distributions (factors, conditionals) and finds one changed."""
+
+
+def _optimised(opt, niter):
+    if niter is None:
+        opt.optimize()
+    else:
+        opt.optimize(niter=niter)
+    return opt.construct_dist()
+
+
+def _printed(obj):
+    # the default repr names the address of the (new) object: only a printing repr (ditParams['repr.print']) is a value
+    return _each([lambda: str(obj), lambda: (lambda x: None if ' object at 0x' in x else x)(repr(obj)),
+                  lambda: obj.to_string(digits=3), lambda: obj._repr_html_() if hasattr(obj, '_repr_html_') else None])
+
+
+def _each(thunks):
+    """The values of several calls; one that raises is recorded as such and the others are still made."""
+    out = []
+    for f in thunks:
+        try:
+            out.append(canon_value(f()))
+        except ArgumentChanged:
+            raise
+        except Exception as ex:  # noqa
+            out.append(('raised', type(ex).__name__))
+    return out
+
+
+def _curve(c):
+    out = []
+    for k in ('rates', 'distortions', 'complexities', 'relevances', 'ranks'):
+        if hasattr(c, k):
+            out.append(np.asarray(getattr(c, k), dtype=float))
+    return out
 
 
 # ---------------------------------------------------------------------------------- a pristine process per session
@@ -303,11 +661,44 @@ def in_pristine_process(case):
     return r
 
 
+# ---------------------------------------------------------------------------------- configurations
+#
+# "the library's global configuration" is dit.ditParams.  Some cases are executed under a configuration other than
+# the default one (printing of exact fractions, repr printing the table, other comparison tolerances); the harness
+# sets it before the case's distributions are built and puts the former values back afterwards.  Whatever the
+# configuration, no callable may change it (global_snapshot) and deterministic calls repeat.
+
+CONFIGS = [None, None, {'repr.print': True}, {'print.exact': True}, {'repr.print': True, 'print.exact': True},
+           {'rtol': 1e-7, 'atol': 1e-10}]
+
+
+def configure(dit, config):
+    saved = {}
+    for k, v in sorted((config or {}).items()):
+        saved[k] = dit.ditParams[k]
+        dit.ditParams[k] = v
+    return saved
+
+
+def restore(dit, saved):
+    for k, v in saved.items():
+        dit.ditParams[k] = v
+
+
 class C10(object):
     id = 'C10'
     rule = ("registry of public callables built by introspection of dit.shannon / multivariate / other / divergences / "
             "algorithms plus explicit recipes (profiles, PID classes, distribution methods, constructors-from-"
-            "distributions; optimisation-based ones in the thorough tier) x 7 representations of a 3-variable argument (every callable of the tier's registry meets every representation in each run) "
+            "distributions; optimisation-based ones in the thorough tier; coverage-gap round: the remaining public "
+            "callables of dit, dit.multivariate, dit.other, dit.divergences (incl. the pmf-level functions handed the stored "
+            "arrays), dit.algorithms (stats, lattice, channel capacity, the optimiser classes of distribution_optimizers, "
+            "pid_broja), dit.helpers / abstractdist / cdisthelpers / validate, every PID and profile class that runs in "
+            "this sandbox and their printed forms, measures with variables of interest / conditioning variables / names / "
+            "options, printing and iteration methods, and - on two ScalarDistributions with numerical outcomes that every "
+            "case carries in the analogue of its representation - the methods, operators, comparisons and measures of "
+            "ScalarDistribution; every case watches all four distributions around every call; about a third of the "
+            "cases run under a non-default ditParams configuration (repr.print, print.exact, rtol/atol), which no call may "
+            "change; sessions give every member a scalar companion over its stored values) x 7 representations of a 3-variable argument (every callable of the tier's registry meets every representation in each run) "
             "(sparse/dense, linear/log2/loge, named, untrimmed with stored zeros, custom sample space) x random "
             "interleavings of 12 calls; snapshot of every argument (outcomes, pmf bytes, base, sparse flag, alphabet, "
             "sample space, names, mask, rv mode, PRNG state, index), of ditParams, the ops cache keys, NumPy's error "
@@ -330,6 +721,11 @@ class C10(object):
         # callable of the quick registry meets every representation at least once per run
         n_cases = 84 if tier == 'quick' else 240
         start_pristine()     # nothing has been executed yet in this process: sessions start from a copy of this state
+        # as many cycles of the 7 representations as it takes for every callable of the tier's registry to be called
+        # systematically (12 per case in the quick tier, 10 in the thorough one: see run_interleaving)
+        n_reg = len(build_registry(import_dit(), tier))
+        per_case = 12 if tier == 'quick' else 10
+        n_cases = max(n_cases, len(REPRESENTATIONS) * (-(-n_reg // per_case)))
         for i in range(n_cases):
             c = gen.rand_dist_case(rng, nmin=3, nmax=3, amax=2, bases=['linear'], allow_space=False, allow_names=False,
                                    max_support=7, klasses=('str', 'tuple'))
@@ -351,9 +747,13 @@ class C10(object):
             c['seed'] = rng.randrange(2 ** 31)
             c['ncalls'] = 12 if tier == 'quick' else 20
             c['slot'] = i // len(REPRESENTATIONS)
+            c['config'] = CONFIGS[rng.randrange(len(CONFIGS))]
             yield c
             if i % 3 == 2:
                 yield self.gen_session(rng, tier, c)
+            if i % 4 == 1:
+                # the memo behind get_ops against the model memoRun (Props/C10Memo), see _c10memo.py
+                yield _c10memo.gen_case(rng)
 
     def gen_session(self, rng, tier, c):
         """Several live distributions over the outcome table of `c`, in many representations, and an interleaving of
@@ -406,9 +806,13 @@ class C10(object):
                     j = (i + 1) % (m + 1)
                 steps.append({'op': 'call', 'fn': rng.randrange(10 ** 6), 'i': i, 'j': j})
         return {'kind': 'session', 'klass': c['klass'], 'outs': c['outs'], 'dists': dists, 'steps': steps,
-                'tier': tier, 'rep': 'session'}
+                'tier': tier, 'rep': 'session', 'config': CONFIGS[rng.randrange(len(CONFIGS))]}
 
     def shrink(self, case):
+        if case.get('kind') == 'memo':
+            for c in _c10memo.shrink(case):
+                yield c
+            return
         if case.get('kind') == 'session':
             for c in self.shrink_session(case):
                 yield c
@@ -446,10 +850,44 @@ class C10(object):
             d.set_rv_names('XYZ')
         return d
 
+    def represent_scalar(self, case, pmf_key, shift=0):
+        """A ScalarDistribution with numerical outcomes carrying the case's probabilities, in the scalar analogue of the
+        case's representation (base, dense, stored zeros, a sample space of its own)."""
+        dit = import_dit()
+        rep = case['rep']
+        pmf = [float(Fraction(p)) for p in case[pmf_key]]
+        outs = [shift - 1 + k for k in range(len(pmf))]          # ..., -1, 0, 1, 2, ...: negative, zero and positive outcomes
+        kw = {}
+        if rep == 'untrimmed':
+            outs, pmf = outs + [outs[-1] + 2, outs[-1] + 5], pmf + [0.0, 0.0]
+            kw['trim'] = False
+        if rep == 'custom-space':
+            kw['sample_space'] = list(range(outs[0] - 2, outs[-1] + 3))
+        s = dit.ScalarDistribution(outs, pmf, **kw)
+        if rep.startswith('dense'):
+            s.make_dense()
+        if rep.endswith('log2'):
+            s.set_base(2)
+        if rep.endswith('loge'):
+            s.set_base('e')
+        return s
+
     def run(self, case, drv):
+        if case.get('kind') == 'memo':
+            return _c10memo.run(case, drv)
         if case.get('kind') == 'session':
             return self.run_session(case)
         dit = import_dit()
+        saved = configure(dit, case.get('config'))
+        try:
+            r = self.run_interleaving(case, dit)
+        finally:
+            restore(dit, saved)
+        if case.get('config'):
+            r.features.append('config=' + '+'.join(sorted(case['config'])))
+        return r
+
+    def run_interleaving(self, case, dit):
         r = core.Result()
         r.site = 'C10.purity'
         r.features = ['rep=%s' % case['rep']]
@@ -459,6 +897,8 @@ class C10(object):
         rs = np.random.RandomState(case['seed'])
         d = self.represent(case, 'pmf')
         e = self.represent(case, 'pmf2')
+        s = self.represent_scalar(case, 'pmf')
+        t = self.represent_scalar(case, 'pmf2')
         if case.get('only'):
             seq = [case['only']] * 2
         else:
@@ -473,17 +913,33 @@ class C10(object):
         first = {}
 
         def call(nm):
+            a, b = (s, t) if is_scalar_entry(nm) else (d, e)
             try:
                 with np.errstate(all='ignore'):
-                    return ('ok', canon_value(reg[nm](d, e)))
+                    return ('ok', canon_value(reg[nm](a, b)))
+            except ArgumentChanged as ex:
+                return ('argument-changed', str(ex))
             except Exception as ex:  # noqa
                 return ('raised', type(ex).__name__)
         for k, nm in enumerate(seq + sorted(set(seq))):
             sd, se, sg = snapshot(d), snapshot(e), global_snapshot(dit)
+            ss, st = snapshot(s), snapshot(t)
             val = call(nm)
             ad, ae, ag = snapshot(d), snapshot(e), global_snapshot(dit)
-            randomised = any(x in nm for x in RANDOMISED) or any(x in nm for x in STOCHASTIC)
-            for label, before, after in (('first argument', sd, ad), ('second argument', se, ae)):
+            as_, at = snapshot(s), snapshot(t)
+            randomised = is_randomised(nm)
+            if val[0] == 'argument-changed':
+                r.oracle_fail = '%s: %s (representation %s)' % (nm, val[1], case['rep'])
+                r.site = 'C10.' + nm
+                r.detail = {'callable': nm}
+                return r
+            if is_scalar_entry(nm):
+                watched = (('first argument', ss, as_), ('second argument', st, at),
+                           ('bystander (the first joint distribution)', sd, ad), ('bystander (the second joint distribution)', se, ae))
+            else:
+                watched = (('first argument', sd, ad), ('second argument', se, ae),
+                           ('bystander (the first scalar distribution)', ss, as_), ('bystander (the second scalar distribution)', st, at))
+            for label, before, after in watched:
                 diff = [key for key in before if before[key] != after[key]]
                 if diff:
                     r.oracle_fail = '%s changed %s of its %s (representation %s)' % (nm, diff, label, case['rep'])
@@ -587,8 +1043,13 @@ class C10(object):
         tier = case.get('tier', 'quick')
         reg = build_registry(dit, tier)
         names = sorted(reg)
+        configure(dit, case.get('config'))     # a session has a process of its own: nothing to put back
+        if case.get('config'):
+            r.features.append('config=' + '+'.join(sorted(case['config'])))
         pool = {}        # index in case['dists'] -> live distribution
         snaps = {}       # index -> snapshot taken when it came into being (and confirmed after every step since)
+        spool = {}       # index -> the member's scalar companion (same stored values, base and sparseness; outcomes 0, 1, ...)
+        ssnaps = {}
         first = {}       # (callable, i, j) -> first value
         called = []
         log = []
@@ -606,9 +1067,12 @@ class C10(object):
             return '#%d (base %r, %s)' % (m, sp['base'], sp['route'])
 
         def call(nm, i, j):
+            a, b = (spool[i], spool[j]) if is_scalar_entry(nm) else (pool[i], pool[j])
             try:
                 with np.errstate(all='ignore'):
-                    return ('ok', canon_value(reg[nm](pool[i], pool[j])))
+                    return ('ok', canon_value(reg[nm](a, b)))
+            except ArgumentChanged as ex:
+                return ('argument-changed', str(ex))
             except Exception as ex:  # noqa
                 return ('raised', type(ex).__name__)
 
@@ -625,6 +1089,16 @@ class C10(object):
                                 'before': {x: repr(snaps[m][x])[:200] for x in diff},
                                 'after': {x: repr(after[x])[:200] for x in diff}, 'steps_so_far': log}
                     return False
+            for m in sorted(ssnaps):
+                after = snapshot(spool[m])
+                diff = [key for key in ssnaps[m] if ssnaps[m][key] != after[key]]
+                if diff:
+                    r.oracle_fail = ('%s changed %s of the scalar companion of %s, which reads back differently than before the step'
+                                     % (what, diff, describe(m)))
+                    r.detail = {'step': what, 'changed': diff, 'distribution': 'scalar companion of ' + describe(m),
+                                'before': {x: repr(ssnaps[m][x])[:200] for x in diff},
+                                'after': {x: repr(after[x])[:200] for x in diff}, 'steps_so_far': log}
+                    return False
             ag = global_snapshot(dit, session=True)
             gdiff = [key for key in sg if sg[key] != ag[key]]
             if gdiff:
@@ -635,7 +1109,12 @@ class C10(object):
             return True
 
         def compare(nm, i, j, val):
-            if any(x in nm for x in RANDOMISED) or any(x in nm for x in STOCHASTIC):
+            if val[0] == 'argument-changed':
+                r.oracle_fail = '%s on %s and %s: %s' % (nm, describe(i), describe(j), val[1])
+                r.site = 'C10.' + nm
+                r.detail = {'callable': nm, 'steps_so_far': log}
+                return False
+            if is_randomised(nm):
                 return True
             tol = 1e-4 if any(x in nm for x in OPTIMISER) else 0.0
             key = (nm, i, j)
@@ -664,6 +1143,10 @@ class C10(object):
                     return r
                 pool[m] = d
                 snaps[m] = snapshot(d)
+                # the scalar companion: constructor on the member's stored values (a copy of the array), in its base
+                spool[m] = dit.ScalarDistribution(list(range(len(d.pmf))), np.array(d.pmf, copy=True), base=d.get_base(),
+                                                  trim=False, sparse=d.is_sparse())
+                ssnaps[m] = snapshot(spool[m])
                 b = base_of(m)
                 r.features.append('base=%s' % (b if b in ('linear', 2, 'e') else 'integer' if isinstance(b, int)
                                                else 'below-one' if b < 1 else 'non-integer'))
